@@ -1055,6 +1055,10 @@ func buildResObj(params map[string]any, mapKeys []string, schema *openapi3.Schem
 		if additPropsSchema != nil {
 			// dynamic creation of possibly nested objects
 			for k := range objectParams {
+				if _, declared := schema.Value.Properties[k]; declared {
+					// additionalProperties is about the properties that are not declared
+					continue
+				}
 				r, err := buildResObj(params, childKeys(k), additPropsSchema)
 				if err != nil {
 					return nil, err
